@@ -243,12 +243,16 @@ func main() {
 	wideBox := orb.Bound{Min: orb.Point{0.6213, 1.6127}, Max: orb.Point{3.4719, 2.4181}} // wider than tall
 	dumpKeys := os.Getenv("C16_DUMP_KEYS") != ""
 	var keyLog []string
+	var ringCaseOf func(c *mc.Ctx, n int, gb *orb.Bound, vertex func(i int) int)
 	ringCase := func(c *mc.Ctx, n int, gb *orb.Bound) {
+		ringCaseOf(c, n, gb, func(int) int { return c.Choose(G * G) })
+	}
+	ringCaseOf = func(c *mc.Ctx, n int, gb *orb.Bound, vertex func(i int) int) {
 		general := gb != nil
 		ring := make(orb.Ring, 0, n+1)
 		ir := make([]ip, n)
 		for i := 0; i < n; i++ {
-			p, e := gpt(c.Choose(G * G))
+			p, e := gpt(vertex(i))
 			ring = append(ring, p)
 			ir[i] = e
 		}
@@ -361,6 +365,30 @@ func main() {
 			r.Explore(fmt.Sprintf("rings-%d-general-box-%s", n, []string{"a", "tall", "wide"}[bi]), fmt.Sprintf("general-position box %v x all simple rings of %d grid vertices meeting the open box", gb, n), mc.Opts{MaxDev: -1, Split: 2}, func(c *mc.Ctx) { ringCase(c, n, &gb) })
 		}
 	}
+	// frames: rings that go around the whole box (the four corners of the grid, in order) with a notch of two
+	// free vertices cut into one side. Their pieces must be closed by wrapping around the rest of the box, and
+	// the notch edges reach the box through its corners and edges in every combination the grid allows.
+	r.Explore("frames-integer-box", "box [1,3]^2 x the grid frame (0,0)-(4,0)-(4,4)-(0,4) with two free grid vertices inserted on each of its 4 sides x 6 start vertices x both directions; simple rings meeting the open box only", mc.Opts{MaxDev: -1, Split: 3, MaxFails: 2000000, StopAfter: 1 << 30}, func(c *mc.Ctx) {
+		side := c.Choose(4)
+		v1, v2 := c.Choose(G*G), c.Choose(G*G)
+		start := c.Choose(6)
+		rev := c.Bool()
+		frame := []int{0, 4, 24, 20}
+		var seq []int
+		for i := 0; i < 4; i++ {
+			seq = append(seq, frame[i])
+			if i == side {
+				seq = append(seq, v1, v2)
+			}
+		}
+		seq = append(seq[start:], seq[:start]...)
+		if rev {
+			for i, j := 0, len(seq)-1; i < j; i, j = i+1, j-1 {
+				seq[i], seq[j] = seq[j], seq[i]
+			}
+		}
+		ringCaseOf(c, 6, nil, func(i int) int { return seq[i] })
+	})
 	if dumpKeys {
 		sort.Strings(keyLog)
 		byClass := map[string][]string{}
